@@ -36,10 +36,22 @@ CHECKS = [
         "note": COMMON_NOTE,
         "technique": "type-level abstract interpretation of operator overloads (dispatch table extraction); AST protocol lint; CFG dominance of membership guards",
     },
+    {
+        "property_id": "C11",
+        "text": "The lookup order (data > built-ins > caller locals > caller globals > extra_namespace, first match wins) is a "
+        "syntactic fact of four list-building expressions and two loops; an abstract evaluation of list shapes decides it "
+        "for all 2^5 scope subsets at once. Also decided: data-first for arguments only, getattr chain for dotted callees "
+        "(symbolic evaluation for 1..5 name parts), no silent default on the resolution path, frame arithmetic of "
+        "Environment.capture with its single call site (reference=1, directly in design_matrices), and that the captured "
+        "environment is the one handed to every evaluation and reused at prediction.",
+        "design_ref": "DESIGN.md section 3, C11 (R11.1-R11.7)",
+        "note": COMMON_NOTE,
+        "technique": "abstract evaluation of list-construction shapes; AST/CFG structural rules; symbolic evaluation of the callee resolver over name-part counts; who-calls check",
+    },
 ]
 PENDING = "claimed in DESIGN.md; its check is not registered in this revision of /verif yet"
 NOT_APPLICABLE = [
     {"property_id": "C03", "reason": "rank and column space of a data-dependent matrix are linear-algebra facts about runtime values; no sound static argument in reach bounds the patsy-style redundancy algorithm for every term family and order"},
     {"property_id": "C13", "reason": "rank, zero-sum and span of contrast matrices for every size/reference are algebraic identities over np.eye/vstack index arithmetic; deciding them needs evaluation or proof, not code shape (index agreement between matrix and labels is decided under C04, option plumbing under C16)"},
     {"property_id": "C14", "reason": "mean zero, unit deviation, partition of unity, orthonormality are numerical identities over all inputs; the only shape-level clause (parameters fitted once and frozen) is decided under C06"},
-] + [{"property_id": p, "reason": PENDING} for p in ["C04", "C05", "C06", "C07", "C08", "C09", "C10", "C11", "C12", "C15", "C16", "C17"]]
+] + [{"property_id": p, "reason": PENDING} for p in ["C04", "C05", "C06", "C07", "C08", "C09", "C10", "C12", "C15", "C16", "C17"]]
